@@ -24,6 +24,9 @@
     pgen.assigntz <n0|N> <n1|N> <tzname|N>             _assign_tzname on a fold-0 datetime -> fold
     pgen.numtok <info> <year> <century> <fuzzy> <idx> <tok;tok;…> <classes of all tokens> <ymd v,v|century|d|m|y> <res.hour|->
                                                        _parse_numeric_token -> idx ; ymd ; hour minute second microsecond
+    pgen.step <info> <year> <century> <fuzzy> <i> <tok;tok;…> <classes> <ymd> <hour|-> <ampm|-> <tzname|N> <tzoffset|->
+        one iteration of the `while` body of parser._parse
+        -> i ; tokens ; weekday hour minute second microsecond ampm tzname tzoffset ; ymd ; skipped
 -/
 import DateutilVerif.Ops.Parser
 import DateutilVerif.Generated.ParserOps
@@ -166,6 +169,19 @@ def handleFn (op : String) (args : List String) : Option String :=
     some (showR (fun r : Nat × Ymd × Res =>
         s!"{r.1} ; {showYmd r.2.1} ; {showON r.2.2.hour} {showON r.2.2.minute} {showON r.2.2.second} {showON r.2.2.microsecond}")
       (Gen.P.parseNumericToken cls i l idx ymd { hour := hour } (fz == "1")))
+  | "pgen.step", [info, y, c, fz, idx, toks, classes, ymd, hour, ampm, tzn, tzo] => withInfo info y c fun i => do
+    let idx ← idx.toNat?; let l ← toks? toks; let hour ← optNat? hour; let ampm ← optNat? ampm
+    let tzn ← optName? tzn; let tzo ← parseOptInt? tzo
+    let cls := clsOfTable (mkTable l.flatten (if classes == "-" then "" else classes))
+    let ymd ← match ymd.splitOn "|" with
+      | [vs, ce, d, m, yy] => do
+        let vs ← natList? vs; let d ← optNat? d; let m ← optNat? m; let yy ← optNat? yy
+        pure ({ vals := vs, century := ce == "1", dIdx := d, mIdx := m, yIdx := yy } : Ymd)
+      | _ => none
+    some (showR (fun r : List Token × Nat × Res × Ymd × List Nat =>
+        let rs := r.2.2.1
+        s!"{r.2.1} ; {";".intercalate (r.1.map showCps)} ; {showON rs.weekday} {showON rs.hour} {showON rs.minute} {showON rs.second} {showON rs.microsecond} {showON rs.ampm} {showOptName rs.tzname} {showOI rs.tzoffset} ; {showYmd r.2.2.2.1} ; {",".intercalate (r.2.2.2.2.map toString)}")
+      (Gen.P.parseStep cls i l idx l.length { hour := hour, ampm := ampm, tzname := tzn, tzoffset := tzo } ymd [] (fz == "1")))
   | "pgen.assigntz", [n0, n1, name] => do
     let a ← optName? n0; let b ← optName? n1; let n ← optName? name
     some (showR (fun d : PPy.FoldDt => toString d.fold) (Gen.P.assignTzname dflt { n0 := a, n1 := b } n))
